@@ -33,6 +33,8 @@ func checkEntity(tag string, h http.Handler, path string, body []byte, hdrs map[
 	vsym.Assert(len(rh.Body) == 0, tag+"/head-empty-body")
 	vsym.Assert(rh.Hdr.Get("Content-Length") == itoa(len(body)), tag+"/head-length")
 	vsym.Assert(rh.Hdr.Get("ETag") == etag, tag+"/head-etag")
+	// HEAD describes the same version GET serves
+	vsym.Assert(rh.Hdr.Get("x-amz-version-id") == rg.Hdr.Get("x-amz-version-id"), tag+"/head-version-id")
 	for k, v := range hdrs {
 		vsym.Assert(rg.Hdr.Get(k) == v, tag+"/get-header-"+k)
 		vsym.Assert(rh.Hdr.Get(k) == v, tag+"/head-header-"+k)
